@@ -3377,7 +3377,7 @@ class DNSProtocol(DNSMixin, protocol.Protocol):
                 self.length = struct.unpack("!H", self.buffer[:2])[0]
                 self.buffer = self.buffer[2:]
 
-            if len(self.buffer) >= self.length:
+            if self.length is not None and len(self.buffer) >= self.length:
                 myChunk = self.buffer[: self.length]
                 m = Message()
                 m.fromStr(myChunk)
